@@ -2012,6 +2012,10 @@ package ring
 // ---- NewPoly (properties C09 / C08): every row is its own allocation of exactly N coefficients
 // ---- (capacity N: a reader that re-slices a reused row cannot run into the next row).  Bounded
 // ---- instance: at most three rows.
+//@ afunc NewPoly
+//@   trusted abstract level: a new polynomial with Level+1 rows (verified: NewPoly#rows) of N zero coefficients each (make zeroes memory): the zero element, in every domain
+//@   ensures len(pol.Coeffs) == Level + 1 && val(pol) == 0 && dom(pol) == 2
+
 //@ afunc NewPoly#rows
 //@   property C09
 //@   unwind 4
